@@ -79,6 +79,26 @@ def run(h, case):
                 else:
                     sc = h.vals(kr.smooth_ranking(pts, h.iarray(mem), getattr(kr.ClusterRanking, mode)))
                     what = 'the kept knee attains the maximum ranking score (fit quality x relative height)'
+                if mode != 'corners':
+                    # the ranking score itself, written from the statement: segment fit quality (squared Pearson correlation of the stretch from the
+                    # cluster's first knee / up to its last knee) times the height below the cluster's highest knee, normalised over the cluster
+                    lf = h.L.linear_fit
+                    xa, ya = pts[:, 0], pts[:, 1]
+                    peak = Y[mem[0]]
+                    for k in mem[1:]:
+                        peak = core.smax(peak, Y[k]) if h.sym else max(peak, Y[k])
+                    wts = [(core.sabs(peak - Y[k]) if h.sym else abs(peak - Y[k])) for k in mem]
+                    tot = sum(wts)
+                    if tot != 0:                       # spec side forks like ordinary code
+                        wts = [w / tot for w in wts]
+                    spec = []
+                    for k, w in zip(mem, wts):
+                        fl = lf.r2(xa[mem[0]:k + 1], ya[mem[0]:k + 1])
+                        fr = lf.r2(xa[k:mem[-1]], ya[k:mem[-1]])
+                        fit = fl if mode == 'left' else (fr if mode == 'right' else (fl + fr) / 2)
+                        spec.append(fit * w)
+                    ok_spec = core.band(*[h.eq(a, b) for a, b in zip(sc, spec)]) if h.sym else all(h.eq(a, b) for a, b in zip(sc, spec))
+                    h.prove(ok_spec, 'ranking score == segment fit quality x relative height')
                 i = mem.index(kept)
                 h.prove(band(*[h.le(sc[j], sc[i]) for j in range(len(mem))]), what)
     h.prove(not h.writes(), 'arguments unmodified')
